@@ -5,6 +5,9 @@ import HappyProofs.C16.StoreWB
 import HappyProofs.C16.SoftTtlInv
 import HappyProofs.C16.StoreSeq
 import HappyProofs.C16.OrderLaws
+import HappyProofs.C16.TierProps
+import HappyProofs.C16.PageProps
+import HappyProofs.C16.WPolProps
 /-!
 # C16 — property theorems
 
